@@ -167,6 +167,11 @@ pub fn verif_dir() -> String {
     std::env::var("VERIF_DIR").unwrap_or_else(|_| "/verif".to_string())
 }
 
+/// where evidence/ and replays/ go (the sensitivity self-test redirects it)
+pub fn out_dir() -> String {
+    std::env::var("VERIF_OUT").unwrap_or_else(|_| verif_dir())
+}
+
 /// Lines of /verif/KNOWN_FINDINGS.txt:
 ///   `finding: property=<id> signature=<sig> <what fails>`  – suppresses exactly that signature
 ///   `fixed: property=<id> <commit> <what failed>`          – suppresses nothing
@@ -245,7 +250,7 @@ pub fn write_replay<S: Scenario>(
         minimised_trace_len: out.traces.iter().map(|t| t.len() as u64).sum(),
         minimise_steps: min.steps,
     };
-    let dir = format!("{}/replays", verif_dir());
+    let dir = format!("{}/replays", out_dir());
     let _ = std::fs::create_dir_all(&dir);
     let path = format!("{}/{}-{}-{}.json", dir, S::PROP, base_seed, index);
     std::fs::write(&path, serde_json::to_string_pretty(&rf).unwrap()).expect("write replay file");
@@ -547,7 +552,7 @@ pub fn worker_main<S: Scenario>(tier: Tier, base_seed: u64, runs: u64, shard: u6
 
 pub fn search<S: Scenario>(cfg: &SearchCfg) -> SearchReport<S> {
     let start = Instant::now();
-    let dir = format!("{}/target/tmp/{}-{}-{}", verif_dir(), S::PROP, cfg.tier.name(), std::process::id());
+    let dir = format!("{}/tmp-shards/{}-{}-{}", std::env::var("CARGO_TARGET_DIR").unwrap_or_else(|_| format!("{}/target", verif_dir())), S::PROP, cfg.tier.name(), std::process::id());
     let _ = std::fs::remove_dir_all(&dir);
     std::fs::create_dir_all(&dir).expect("create shard dir");
     let exe = std::env::current_exe().expect("current exe");
@@ -720,7 +725,7 @@ pub fn write_evidence(e: EvidenceInput) {
         "wall_s": e.wall_s,
         "violations": e.violations,
     });
-    let dir = format!("{}/evidence", verif_dir());
+    let dir = format!("{}/evidence", out_dir());
     let _ = std::fs::create_dir_all(&dir);
     let path = format!("{}/{}.json", dir, e.property);
     std::fs::write(&path, serde_json::to_string_pretty(&doc).unwrap()).expect("write evidence");
